@@ -7,10 +7,38 @@ from engine.rulekit import witness as W
 from rules import templates as T
 
 
+def choose(F, X, base, cap, pool=64):
+    """Sample indices: the first `base` derivations, then (greedy set cover over a pool of candidate derivations, rendering only)
+    those that reach emit sites not reached yet, up to `cap` samples. Which derivations are type-checked is decided by coverage,
+    not by luck of the hash."""
+    indices = list(range(base))
+    covered = set()
+    for i in indices:
+        covered |= skeleton.sample(F, X, i).covered
+    cands = {}
+    while len(indices) < cap:
+        best, gain = None, 0
+        for i in range(base, pool):
+            if i in indices:
+                continue
+            if i not in cands:
+                cands[i] = skeleton.sample(F, X, i).covered
+            g = len(cands[i] - covered)
+            if g > gain:
+                best, gain = i, g
+        if best is None:
+            break
+        indices.append(best)
+        covered |= cands[best]
+    return indices
+
+
 def run(F, tier):
     X = T.extractor(F)
     n = 5 if tier != "thorough" else 24
-    segs, maps, renders, asserts = skeleton.assemble(F, X, list(range(n)))
+    indices = choose(F, X, n, 10 if tier != "thorough" else 32)
+    n = len(indices)
+    segs, maps, renders, asserts = skeleton.assemble(F, X, indices)
     ok, diags = W.check(F, segs, "e4-" + tier)
     allsites = {(e.fn, e.ev.order): e for e in T.inline(X, T.ROOT) if e.kind == "emit"
                 and not (len(e.parts) == 1 and e.parts[0][0] == "hole" and e.parts[0][1][0] == "const")}
